@@ -1,29 +1,21 @@
-//! C06: arbitrary bytes -> peer script (total decoder) -> real h3 endpoint over simquic, under the
-//! panic catcher and the quiescence hang oracle. Aborts only on a violation that
-//! /verif/known_findings.json does not list.
+//! libFuzzer entry for the `peer_script` target: see vcheck::fuzzing (shared with `vcheck fuzz-replay`).
+//! Aborts only on a violation that /verif/known_findings.json does not list.
 #![no_main]
 use libfuzzer_sys::fuzz_target;
-use vcheck::props::c06;
-use vcheck::report::{KnownFindings, Report};
+use vcheck::report::KnownFindings;
 
 fuzz_target!(|data: &[u8]| {
     static INIT: std::sync::Once = std::sync::Once::new();
     INIT.call_once(vcheck::panics::install_hook);
-    if data.len() < 4 {
+    let prop = vcheck::fuzzing::property_of("peer_script").unwrap();
+    let viol = vcheck::fuzzing::run("peer_script", data);
+    if viol.is_empty() {
         return;
     }
-    let h3_is_server = data[0] & 1 == 0;
-    let split = data[0] & 2 == 2;
-    let nreq = 1 + (data[1] % 3) as usize;
-    let seed = u16::from_le_bytes([data[2], data[3]]) as u64;
-    let ops = c06::decode(&data[4..]);
-    let mut rep = Report::new();
-    fastrand::seed(seed);
-    c06::check_script(&ops, h3_is_server, split, nreq, seed, &mut rep);
-    if let Some(v) = rep.violations.first() {
-        let known = KnownFindings::load(Some("/verif/known_findings.json"));
-        if known.lookup("C06", &v.sig).is_none() {
-            eprintln!("VIOLATION property=C06 signature={} detail={}", v.sig, v.detail);
+    let known = KnownFindings::load(std::env::var("VCHECK_KNOWN").ok().as_deref().or(Some("/verif/known_findings.json")));
+    for (sig, detail) in viol {
+        if known.lookup(prop, &sig).is_none() {
+            eprintln!("VIOLATION property={} signature={} detail={}", prop, sig, detail);
             std::process::abort();
         }
     }
